@@ -66,7 +66,7 @@ class Timer(Sub):
             "interfaces; 1..8 segments, each = optional start strobe (either or both interfaces, held 1..3 cycles) with a "
             "speed in {HS,FS,LS}, then a wait drawn from values around every table entry / short restarts / long silences "
             "up to 700 cycles, optionally with a speed switch in the middle of the wait; the first segment may omit the "
-            "start (measured from reset). Oracle: per cycle, tx_allowed / tx_timeout / rx_timeout of both interfaces must "
+            "start (measured from reset); plus one enumerated 66 300-cycle silence per configuration and speed. Oracle: per cycle, tx_allowed / tx_timeout / rx_timeout of both interfaces must "
             "equal (elapsed == table[current speed]) with the table entered from the statement. non-trivial = every speed "
             "the build asserts on has >=1 expected strobe observed AND >=1 restart before the running measurement expired")
 
@@ -91,6 +91,15 @@ class Timer(Sub):
             cfg=weighted([(0, 4), (1, 1), (2, 1)]),
             segs=long_lists(seg, min_size=1, max_size=8, average=4),
         ))
+
+    def enumerate(self, tier):
+        # long silences: one start (or the power-on reset), then 66 300 cycles (> 2^16 + the longest table entry)
+        # without any further start -- the strobes belong to the most recent start only, however long ago it was
+        out = []
+        for ci, (clock, fs_only) in enumerate(CONFIGS):
+            for sp in ([FULL] if fs_only else [HIGH, FULL, LOW]):
+                out.append(dict(cfg=ci, segs=[dict(start=1 if sp != FULL else 0, hold=1, speed=sp, wait=66300, switch=None)]))
+        return out
 
     def run(self, case):
         clock, fs_only = CONFIGS[case["cfg"]]
@@ -153,6 +162,8 @@ class Timer(Sub):
             labels.add("speed-switch-mid-wait")
         if not case["segs"][0]["start"]:
             labels.add("from-reset")
+        if any(sg["wait"] > 65536 for sg in case["segs"]):
+            labels.add("silence-over-65536-cycles")
         if any(sg["start"] == 4 for sg in case["segs"][1:]):
             labels.add("domain-reset-mid-run")
         need = {FULL} if fs_only else {HIGH, FULL, LOW}
